@@ -298,6 +298,8 @@ def eq_typed(ex, x, y, ty):
 
 def default_of(ex, ty):
     ty = ty.strip()
+    if ty.startswith('(') and ty.endswith(')'):
+        return Agg('tuple', 0, [default_of(ex, x) for x in mt.split_top(ty[1:-1])])
     if ty in ('String',): return Str([])
     if ty.startswith('Vec<'): return PyVec([])
     if ty.startswith('HashMap<'): return PyMap('hash')
@@ -373,6 +375,9 @@ def m_from(ex, f, a):
         t = ex.deref(v)
         if isinstance(t, Str): return Str(t.chars)
         if isinstance(t, int) or is_sym(t): return Str([t])          # From<char>
+    if dstn.startswith('Cow<'):
+        t = ex.deref(v)
+        return Agg('Cow', 0 if src.strip().startswith('&') else 1, [Str(t.chars) if isinstance(t, Str) else t])
     if dstn.startswith('Box<') : return mkbox(v if not isinstance(ex.deref(v), Str) else Str(ex.deref(v).chars))
     if dstn.startswith('Option<'): return some(v)
     if dstn in INT_RANGES and src.strip() in INT_RANGES or src.strip() in ('bool', 'char'): return ex.int_cast(v, src.strip(), dstn)
